@@ -1,0 +1,36 @@
+//go:build verif
+
+package rueidis
+
+import "sync/atomic"
+
+// VerifPipeGapFn, when set, is called at the lock-free points of pipe.Do named below, so that an observer can
+// hold a caller between two atomic instructions and let other callers run (schedule replay).
+//
+//	"do-put"      : Do, label queue:, before queue.PutOne
+//	"do-bg-after" : Do, end of the synchronous path, after decrWaitsAndIncrRecvs returned left != 0 and before background()
+var VerifPipeGapFn atomic.Value // func(site string)
+
+func verifPipeGap(site string) {
+	if f, ok := VerifPipeGapFn.Load().(func(string)); ok && f != nil {
+		f(site)
+	}
+}
+
+// VerifPipeCounters returns the state word, the waits counter and bgState of the first pipelining wire of a
+// single client (-1s if there is none yet).
+func VerifPipeCounters(c Client) (state int32, waits int32, bg int32) {
+	sc, ok := c.(*singleClient)
+	if !ok {
+		return -1, -1, -1
+	}
+	m, ok := sc.conn.(*mux)
+	if !ok || len(m.muxwires) == 0 {
+		return -1, -1, -1
+	}
+	p, ok := m.muxwires[0].wire.Load().(*pipe)
+	if !ok {
+		return -1, -1, -1
+	}
+	return atomic.LoadInt32(&p.state), int32(p.loadWaits()), atomic.LoadInt32(&p.bgState)
+}
